@@ -224,7 +224,11 @@ pub(super) fn eval_comparison_expression(
         (ConstantValue::Integer(l), ConstantValue::Integer(r)) => compare!(l, r),
         (ConstantValue::Float(l), ConstantValue::Float(r)) => compare!(l, r),
         (ConstantValue::CString(l), ConstantValue::CString(r))
-        | (ConstantValue::QString(l), ConstantValue::QString(r)) => compare!(l, r),
+        | (ConstantValue::QString(l), ConstantValue::QString(r)) => {
+            // QString (and JavaScript string) is compared by UTF-16 code unit
+            let (l, r): (Vec<u16>, Vec<u16>) = (l.encode_utf16().collect(), r.encode_utf16().collect());
+            compare!(l, r)
+        }
         (ConstantValue::NullPointer, ConstantValue::NullPointer) => compare!((), ()),
         (left, right) => Err(ExpressionError::OperationOnIncompatibleTypes(
             op.to_string(),
